@@ -10,7 +10,7 @@ Model of `playback/tape_cassettes/s3/s3_basic_facade.py` and `playback/tape_cass
                     `get_recording_metadata` l.93-111, `_get_id_prefixes` l.262-283, `iter_recording_ids` l.310-348,
                     `close` l.361-373, `__exit__` (tape_cassette.py l.15-16)
   crash             a save interrupted after its j-th bucket mutation
-  time              minutes since an epoch; `day t = t / 1440`; `strftime('%Y%m%d')` is the parameter `dayStr`
+  time              SECONDS since an epoch (the resolution of S3's LastModified); `day t = t / 86400`; `strftime('%Y%m%d')` is the parameter `dayStr`
 
 No imports besides the matcher model (the S3 content filter calls it).  External behaviour that is a parameter:
 `glob` (fnmatch), `dayStr` (strftime), `ch` (the `random.choice` stream), `shuf` (`random.shuffle`).
@@ -114,7 +114,7 @@ def idOfKey (c : Cfg) (key : String) : String := dropChars (metaRoot c).toList.l
 
 /-! ### time -/
 
-def day (t : Nat) : Nat := t / 1440
+def day (t : Nat) : Nat := t / 86400
 
 /-- l.278 (after F7): `range((end.date() - start.date()).days + 1)`, the i-th day being `start + i days` -/
 def prefixDays (s e : Nat) : List Nat :=
@@ -125,11 +125,11 @@ def prefixDays (s e : Nat) : List Nat :=
 def prefixDaysSrc (s e : Nat) : List Nat :=
   match PlaybackModel.Source.dayCountKind with
   | .calendar => if day e < day s then [] else (List.range (day e - day s + PlaybackModel.Source.dayCountPlus)).map (day s + ·)
-  | .elapsed => if e < s then [] else (List.range ((e - s) / 1440 + PlaybackModel.Source.dayCountPlus)).map (day s + ·)
+  | .elapsed => if e < s then [] else (List.range ((e - s) / 86400 + PlaybackModel.Source.dayCountPlus)).map (day s + ·)
 
 /-- l.278 before F7: `range((end - start).days + 1)` counts whole 24 h periods -/
 def prefixDaysUnfixed (s e : Nat) : List Nat :=
-  if e < s then [] else (List.range ((e - s) / 1440 + 1)).map (day s + ·)
+  if e < s then [] else (List.range ((e - s) / 86400 + 1)).map (day s + ·)
 
 /-- l.276-281; `end_date or utcnow()` bounds only the day enumeration -/
 def idPrefixes (dayStr : Nat → String) (days : Nat → Nat → List Nat) (cat : String) (s e : Option Nat) (now : Nat) :
